@@ -220,7 +220,7 @@ BASES = ["http://example.com/Art/Page?b=2&a=1", "https://lemonde.co.uk/a", "http
 REDIRECT_BASES = ["https://x.cdn.ampproject.org/c/s/example.com/a", "https://www.youtube.com/redirect?q=example.com%2Fa", "http://site.com/out?url=http%3A%2F%2Ftarget.org%2Fp",
                   "http://bc.marfeel.com/www.site.com/x", "http://www.google.com/url?q=http://t.com/a&sa=D"]
 IP_BASES = ["http://[2001:db8::1]/a?x=1", "http://[::1]/", "http://127.0.0.1/A/b", "http://[::ffff:10.0.0.1]/p#/r"]
-WORD_DOMAINS = ["mobile.de", "m.fr", "amp.dev", "www.ck", "mobile.co.uk", "m.example.k12.ma.us".replace("example.", ""), "www2.org", "m.blogspot.com", "amp.xn--p1ai"]
+WORD_DOMAINS = ["m.fr.", "mobile.de.", "amp.dev.", "m.co.uk.", "mobile.de", "m.fr", "amp.dev", "www.ck", "mobile.co.uk", "m.example.k12.ma.us".replace("example.", ""), "www2.org", "m.blogspot.com", "amp.xn--p1ai"]
 OPTSETS = [{"strip_suffix": a, "platform_aware": b} for a in (False, True) for b in (False, True)]
 
 
